@@ -383,6 +383,16 @@ func (x *Exec) intrinsic(fr *Frame, ins ssa.Instruction, fn *ssa.Function, args 
 		r := x.allocRef(st, "snap")
 		st.heap[n] = ts.Store(h, r, ts.Select(h, x.w.sArr(s)))
 		return x.w.mkSlice(r, x.w.sOff(s), x.w.sLen(s), x.w.sCap(s))
+	case "Ghost1":
+		// uninterpreted ghost function (its meaning comes from the facts contracts state about it)
+		gname := x.constString(ins, 0)
+		a, ok := args[1].(*Term)
+		if !ok {
+			unsup("Ghost1 argument is not a term")
+		}
+		rt := fn.Signature.Results().At(0).Type()
+		r := x.w.Fun("ghost_"+sanitize(gname), x.w.sortOf(rt), a)
+		return r
 	case "Disjoint":
 		// the two slices do not share a backing array
 		a, b := args[0].(*Term), args[1].(*Term)
